@@ -574,8 +574,13 @@ def rule_T12(ctx):
                 continue
             n_sites += 1
             kinds = set()
+            # a constructor that delegates to another constructor (`..Self::new(idx, containing)`) forwards its own
+            # parameter: the value is judged at the delegating constructor's call sites, which are examined like any other
+            is_ctor = "BuildNode" in f["path"] and (f.get("name") or "").startswith("new")
             for o in body.origins(args[1]):
                 if o.get("k") == "Field" and o.get("name") == "containing_expression_jump":
+                    kinds.add("inherited")
+                elif is_ctor and o.get("k") == "Param":
                     kinds.add("inherited")
                 else:
                     kinds.add(_classify(o))
